@@ -163,7 +163,10 @@ def Key.toBytes : Key → List Nat
 /-- stringToArrayIndex (otto_.go:32) on the raw bytes -/
 def stringToArrayIndexRaw (s : List Nat) : Int :=
   match GoStd.parseInt s 10 with
-  | .ok i => if i < 0 then -1 else if i ≥ maxUint32 then -1 else i
+  | .ok i =>
+    if i < 0 then -1 else if i ≥ maxUint32 then -1
+    else if dec i.toNat ≠ s then -1          -- strconv.FormatInt(index, 10) != name
+    else i
   | _ => -1
 
 def stringToArrayIndex (k : Key) : Int := stringToArrayIndexRaw k.toBytes
@@ -377,7 +380,7 @@ def arrayShrinkTail (E : Env) (newLength : Nat) (d : Desc) (newWritable throw : 
 def arraySetLength (E : Env) (d : Desc) (throw : Bool) (newLength : Nat) : M Obj Bool := fun o =>
   let length := arrLength o
   let d : Desc := { d with v := some (.int newLength) }
-  if newLength > length then objectDefineOwnProperty E .length d throw o
+  if newLength ≥ length then objectDefineOwnProperty E .length d throw o
   else if !lengthWritable o then reject throw o
   else
     let newWritable := !(d.w == some false)
@@ -545,9 +548,8 @@ def slice (args : List Val) : M σ Ret := fun s =>
   if start ≥ stop then .ok (Ret.arr []) s
   else
     let sliceLength := (stop - start).toNat
-    -- make([]Value, sliceLength): absent entries stay the zero Value, which is `undefined`
     .ok (Ret.arr ((List.range sliceLength).map fun index =>
-      if O.has s (index + start.toNat) then some (O.get s (index + start.toNat)) else some .undef)) s
+      if O.has s (index + start.toNat) then some (O.get s (index + start.toNat)) else none)) s     -- emptyValue
 
 /-- builtinArrayIndexOf (builtin_array.go:460) -/
 def indexOf (args : List Val) : M σ Ret := fun s =>
@@ -586,7 +588,7 @@ def reverseStep (lower upper : Nat) : M σ Unit := fun s =>
     (do O.put lower upperValue; O.put upper lowerValue) s
   else if !lowerExists && upperExists then
     let value := O.get s upper
-    (do O.del upper; O.put lower value) s
+    (do O.put lower value; O.del upper) s
   else if lowerExists && !upperExists then
     let value := O.get s lower
     (do O.del lower; O.put upper value) s
@@ -624,16 +626,16 @@ inductive CArg where
   | arr (es : List (Option Val))
 deriving DecidableEq, Repr
 
-/-- builtinArrayConcat: what one item appends (`valueArray = append(valueArray, Value{})` for an absent index) -/
+/-- builtinArrayConcat: what one item appends (`emptyValue` for an absent index) -/
 def concatItem : CArg → List (Option Val)
   | .v x => [some x]
-  | .arr es => es.map fun e => some (e.getD .undef)
+  | .arr es => es
 
 /-- builtinArrayConcat (builtin_array.go:64) -/
 def concat (items : List CArg) : M σ Ret := fun s =>
   let thisPart : List (Option Val) :=
     if O.isArr s then
-      (List.range (O.len s)).map fun index => if O.has s index then some (O.get s index) else some .undef
+      (List.range (O.len s)).map fun index => if O.has s index then some (O.get s index) else none
     else [some .recv]
   let rest : List (Option Val) := items.flatMap concatItem
   .ok (Ret.arr (thisPart ++ rest)) s
@@ -642,12 +644,14 @@ def concat (items : List CArg) : M σ Ret := fun s =>
 def splice (args : List Val) : M σ Ret := fun s =>
   let length : Int := O.len s
   let start := valueToRangeIndex E (argAt args 0) length false
-  let deleteCount := if args.length > 1 then valueToRangeIndex E (argAt args 1) (length - start) true else length - start
+  let deleteCount :=
+    if args.length > 1 then valueToRangeIndex E (argAt args 1) (length - start) true
+    else if args.length = 0 then 0 else length - start
   let length := O.len s
   let start := start.toNat
   let deleteCount := deleteCount.toNat
   let valueArray : List (Option Val) := (List.range deleteCount).map fun index =>
-    if O.has s (start + index) then some (O.get s (start + index)) else some .undef
+    if O.has s (start + index) then some (O.get s (start + index)) else none
   let itemList := args.drop 2
   let itemCount := itemList.length
   (do
@@ -675,7 +679,7 @@ def lastIndexOf (args : List Val) : M σ Ret := fun s =>
   let index : Int := if 0 > index then index + length else index
   let search (from_ : Int) : Res σ Ret :=
     .ok (indexRet (searchDown (fun j => O.has s j && strictEquals E matchValue (O.get s j)) (from_ + 1).toNat)) s
-  if index > length then search (length - 1)
+  if index ≥ length then search (length - 1)
   else if 0 > index then .ok (indexRet none) s
   else search index
 
@@ -725,7 +729,7 @@ def map (callable : Bool) : M σ Ret := fun s =>
     let values ← foldUp (fun index (values : List (Option Val)) => fun s' =>
       if O.has s' index then
         (do let r ← O.call [O.get s' index, .int index, .recv]; pure (values ++ [some r])) s'
-      else .ok (values ++ [some Val.undef]) s') 0 length []      -- values[index] = Value{} : undefined
+      else .ok (values ++ [none]) s') 0 length []      -- values[index] = emptyValue
     pure (Ret.arr values)) s
 
 /-- builtinArrayFilter (builtin_array.go:589) -/
@@ -752,8 +756,9 @@ def reduce (callable : Bool) (args : List Val) : M σ Ret := fun s =>
       if !initial then
         match searchUp (O.has s) 0 length with
         | some k => (O.get s k, k + 1)
-        | none => (.undef, length)          -- `var accumulator Value` stays the zero Value
+        | none => (.undef, length)
       else (start, 0)
+    if !initial ∧ searchUp (O.has s) 0 length = none then .err .type s else       -- `if !found { panic(TypeError) }`
     (do
       let acc ← foldUp (fun index (accumulator : Val) => fun s' =>
         if O.has s' index then O.call [accumulator, O.get s' index, .int index, .recv] s'
@@ -774,9 +779,10 @@ def reduceRight (callable : Bool) (args : List Val) : M σ Ret := fun s =>
         | some k => (O.get s k, k)
         | none => (.undef, 0)
       else (start, length)
+    if !initial ∧ searchDown (O.has s) length = none then .err .type s else
     (do
       let acc ← foldDown (fun index (accumulator : Val) => fun s' =>
-        if O.has s' index then O.call [accumulator, O.get s' index, .str (dec index), .recv] s'   -- `key`, a string
+        if O.has s' index then O.call [accumulator, O.get s' index, .int index, .recv] s'
         else .ok accumulator s') 0 count accumulator
       pure (Ret.val acc)) s
   else .err .type s
